@@ -240,6 +240,7 @@ class Fxp():
             # a complex format was asked by the dtype string: a real value stored in it reads as complex (like a raw or a fixed-point value does)
             self.vdtype = complex
             self._update_dtype()
+            self._hold_complex_codes()
 
     # ---
     # Properties/Attributes
@@ -512,6 +513,16 @@ class Fxp():
 
         # update dtype
         self._update_dtype()
+        if dtype is not None and complex_flag:
+            self._hold_complex_codes()
+
+    def _hold_complex_codes(self):
+        # the codes of an object made complex by a dtype string are held as complex numbers too
+        # (a complex value written by index later must not lose its imaginary part)
+        if isinstance(self.val, np.ndarray) and self.val.dtype.kind in 'iu':
+            self.val = self.val.astype(complex) if self.val.ndim > 0 else self.val.astype(complex)[()]
+            self.real = self.astype(complex).real
+            self.imag = self.astype(complex).imag
     
     def set_best_sizes(self, val=None, n_word=None, n_frac=None, max_error=1.0e-6, n_word_max=64, raw=False):
 
